@@ -5,6 +5,8 @@
 -/
 import RdfModel.Props.C09
 import RdfModel.Props.C09Facts
+import RdfModel.Props.C09Findings
+import RdfModel.Props.C09Rfc
 open RdfModel RdfModel.RX RdfModel.C09
 
 #print axioms RdfModel.C09.denote_render
@@ -14,6 +16,9 @@ open RdfModel RdfModel.RX RdfModel.C09
 #print axioms RdfModel.C09.write_uses_choice
 #print axioms RdfModel.C09.writeAuto_denote
 #print axioms RdfModel.C09.Witness.auto_used
+#print axioms RdfModel.C09.iriOK_rfc3986
+#print axioms RdfModel.C09.writeAuto_denote_rfc3986
+#print axioms RdfModel.C09.attr_order
 #print axioms RdfModel.C09.ws_propList
 #print axioms RdfModel.C09.ws_nodeList
 #print axioms RdfModel.C09.ws_resKids
@@ -28,6 +33,13 @@ open RdfModel RdfModel.RX RdfModel.C09
 #print axioms RdfModel.C09.gen_tokenizer
 #print axioms RdfModel.C09.badNodeName_iff
 #print axioms RdfModel.C09.badPropName_iff
+#print axioms RdfModel.C09.Findings.xml_lang_empty
+#print axioms RdfModel.C09.Findings.empty_literal_language
+#print axioms RdfModel.C09.Findings.property_element_scope_lang
+#print axioms RdfModel.C09.Findings.property_element_scope_base
+#print axioms RdfModel.C09.Findings.rdf_ns_property_attr_type
+#print axioms RdfModel.C09.Findings.rdf_ns_property_attr_value
+#print axioms RdfModel.C09.Findings.property_attr_predicate
 #print axioms RdfModel.C09.Witness.labelsOK
 #print axioms RdfModel.C09.Witness.g_ok
 #print axioms RdfModel.C09.Witness.plan2_wf
